@@ -21,7 +21,8 @@ open Gwb
 #print axioms C12_rejected_in_item
 #print axioms C12_undeclared_required_key_accepted
 #print axioms C12_default_excuses_required
-#print axioms C12_temps_wellformed_of_basic
+#print axioms C12_splineCmp_of_cmpTotal
+#print axioms C12_splineCmp_of_no_spline
 #check @C12_parse_plume_wellformed
 #check @C12_parse_plume_depths_ascending
 #check @C12_parsed_plume_safe
@@ -43,4 +44,5 @@ open Gwb
 #check @C12_rejected_in_item
 #check @C12_undeclared_required_key_accepted
 #check @C12_default_excuses_required
-#check @C12_temps_wellformed_of_basic
+#check @C12_splineCmp_of_cmpTotal
+#check @C12_splineCmp_of_no_spline
